@@ -96,14 +96,17 @@ def gen_reads(rng, case, sample, chrom, n, rgs_of_sample):
         name = f"{_pfx(case, sample)}_{chrom}_r{k}"
         h = rng.randrange(ploidy)
         alleles = list(haps[h])
+        truth = h                                # the read is an error-free copy of haplotype h (None otherwise)
         if vs and rng.random() < 0.3:            # chimeric read: switches to another haplotype
             h2 = rng.choice([x for x in range(ploidy) if x != h])
             cut = rng.randrange(len(vs) + 1)
             alleles = alleles[:cut] + haps[h2][cut:]
+            truth = None
         if vs and rng.random() < 0.1:            # sequencing errors at variant sites
             for i in range(len(vs)):
                 if rng.random() < 0.3:
                     alleles[i] = 1 - alleles[i]
+            truth = None
         length = rng.choice([rng.randint(40, 120), rng.randint(100, 320)])
         if out and rng.random() < 0.3:           # clump: starts within a few bases of the previous read
             iv = _pick_interval(rng, vobjs, L, length, lo=max(0, out[-1]["start"] + rng.randint(-12, 12)))
@@ -130,7 +133,7 @@ def gen_reads(rng, case, sample, chrom, n, rgs_of_sample):
                 cig = [("H", rng.randint(1, 20))] + list(cig)
         rg = rng.choice(rgs_of_sample) if rgs_of_sample else None
         a = dict(name=name, chrom=chrom, start=s, cigar=[list(x) for x in cig], seq=seq, quals=_quals(rng, len(seq)),
-                 flag=0, mapq=rng.choice([60, 60, 60, 60, 60, 30, 20, 19, 5]), rg=rg, tags=[], sample=sample)
+                 flag=0, mapq=rng.choice([60, 60, 60, 60, 60, 30, 20, 19, 5]), rg=rg, tags=[], sample=sample, truth=truth)
         if rng.random() < 0.2:                  # proper pair; the mate follows after a gap
             gap = rng.randint(5, 60)
             iv2 = _pick_interval(rng, vobjs, L, rng.randint(40, 140), lo=e + gap)
@@ -219,6 +222,7 @@ def decorate(rng, case, alns):
         if x < 0.10:                             # secondary copy
             b = dict(a)
             b["flag"] = (a["flag"] & ~0x1 & ~0x2 & ~0x40 & ~0x80 & ~0x20) | 0x100
+            b["truth"] = None
             b.pop("mate_start", None)
             b["tags"] = list(a["tags"])
             extra.append(b)
@@ -302,6 +306,60 @@ def decorate(rng, case, alns):
 
 
 # ------------------------------------------------------------------------------------------ regions
+def _bridge_read(rng, case):
+    """a long, clean, unpaired, non-barcoded read of a processed sample: error-free copy of a haplotype that one phased
+    heterozygous SNV tells from all others; no other phase set and no non-SNV variant in its reach"""
+    o = case.get("opts") or {}
+    rg_of = {}
+    for g in case["rgs"]:
+        rg_of.setdefault(g.get("SM"), g["ID"])
+    sams = [x for x in (o.get("samples") or case["samples"]) if x in case["samples"] and (x in rg_of or not case["rgs"])]
+    if o.get("ignore_read_groups") and len(o.get("samples") or []) != 1:
+        return None
+    rng.shuffle(sams)
+    for smp in sams:
+        for chrom in rng.sample(case["normal_chroms"], len(case["normal_chroms"])):
+            vs = case["variants"][chrom]
+            calls = case["calls"][smp][chrom]
+            ref = case["ref"][chrom]
+
+            def bad(j, ps):        # a variant the read must stay clear of
+                snv = len(vs[j][1]) == 1 and len(vs[j][2]) == 1
+                c = calls[j]
+                other_ps = c["phased"] and c["ps"] is not None and len(set(c["gt"])) > 1 and c["ps"] != ps
+                return (not snv) or other_ps
+            idx = [i for i, c in enumerate(calls) if c["phased"] and c["ps"] is not None and len(set(c["gt"])) > 1
+                   and len(vs[i][1]) == 1 and len(vs[i][2]) == 1 and any(c["gt"].count(x) == 1 for x in c["gt"])]
+            rng.shuffle(idx)
+            for i in idx:
+                c = calls[i]
+                h = rng.choice([x for x in range(len(c["gt"])) if c["gt"].count(c["gt"][x]) == 1])
+                lo, hi = 1, len(ref) - 2
+                for j in range(len(vs)):
+                    if j != i and bad(j, c["ps"]):
+                        if vs[j][0] < vs[i][0]:
+                            lo = max(lo, vs[j][0] + len(vs[j][1]) + 7)
+                        else:
+                            hi = min(hi, vs[j][0] - 7)
+                st = max(lo, vs[i][0] - rng.randint(30, 140))
+                en = min(hi, vs[i][0] + rng.randint(30, 140))
+                if vs[i][0] - st < 14 or en - vs[i][0] < 15:
+                    continue
+                vobjs = [synth.Variant(p, r, a, "x") for p, r, a in vs]
+                while st < vs[i][0] - 14 and not synth.legal_boundary(vobjs, st):
+                    st += 1
+                while en > vs[i][0] + 15 and not synth.legal_boundary(vobjs, en):
+                    en -= 1
+                if not (synth.legal_boundary(vobjs, st) and synth.legal_boundary(vobjs, en)):
+                    continue
+                alle = [(cc["gt"][h] if cc["gt"] is not None else 0) for cc in calls]
+                seq, cig = synth.hap_walk(ref, vobjs, alle, st, en)
+                return dict(name=f"{_pfx(case, smp)}_{chrom}_bridge", chrom=chrom, start=st, cigar=[list(x) for x in cig], seq=seq,
+                            quals=[30] * len(seq), flag=0, mapq=60, rg=rg_of.get(smp), tags=[], sample=smp, truth=h,
+                            bridge_built=True)
+    return None
+
+
 def gen_regions(rng, case, kind):
     """kind in: chrom, sorted-far, sorted-near, overlapping, unsorted, chrom-order, open, mixed"""
     chroms = case["chroms"]
@@ -365,6 +423,46 @@ def gen_regions(rng, case, kind):
         if rng.random() < 0.4 and y + 2 < Lc:     # a second region right behind it (adjacent or one base apart)
             z = y + rng.choice([1, 2])
             regs.append(f"{a['chrom']}:{z}-{min(Lc, z + rng.randint(5, 200))}")
+        return regs
+    if kind == "bridge":
+        # two regions on one contig separated by a gap, placed relative to a long alignment that bridges the gap: the earlier
+        # region ends (0-based exclusive end) at start-1 / start / start+1 of the alignment, the later region starts in front of
+        # the alignment's variants or at last base-1 / last base / last base+1; optionally a third region further right
+        built = _bridge_read(rng, case)
+        if built is not None and rng.random() < 0.8:
+            case["alns"].append(built)
+            cand = [built]
+        else:
+            cand = [a for a in case["alns"] if a["cigar"] and a["flag"] & ~0x400 == 0 and a["mapq"] >= 20
+                    and sum(n for o, n in a["cigar"] if o in "MDN=X") >= 60]
+            cand = [a for a in cand if a.get("truth") is not None] or cand
+        if not cand:
+            return [c]
+        a = rng.choice(cand)
+        Lc = L[a["chrom"]]
+        st0 = a["start"]
+        last1 = st0 + sum(n for o, n in a["cigar"] if o in "MDN=X")     # 1-based last aligned base
+        d1 = rng.choice([-1, 0, 0, 0, 1])
+        e1 = st0 + d1                                   # 1-based inclusive end = 0-based exclusive end of region 1
+        if e1 < 2:
+            return [c]
+        lo = max(1, e1 - rng.randint(1, 120))
+        inner = [v[0] + 1 for v in case["variants"][a["chrom"]] if st0 + 12 < v[0] + 1 < last1 - 12]
+        if inner and rng.random() < (0.85 if a.get("bridge_built") else 0.6):
+            s2 = max(e1 + 2, inner[0] - rng.randint(0, 8))
+            case["bridge"] = f"end{d1:+d}/before-variants"
+        else:
+            d2 = rng.choice([-1, 0, 1])
+            s2 = max(e1 + 2, last1 + d2)
+            case["bridge"] = f"end{d1:+d}/last{d2:+d}"
+        if s2 >= Lc:
+            return [c]
+        hi = min(Lc, max(s2, last1) + rng.randint(0, 150))
+        regs = [f"{a['chrom']}:{lo}-{e1}", f"{a['chrom']}:{s2}-{hi}"]
+        if rng.random() < 0.3 and hi + 3 < Lc:
+            regs.append(f"{a['chrom']}:{hi + 2}" + ("" if rng.random() < 0.5 else f"-{Lc}"))
+        if rng.random() < 0.2:
+            rng.shuffle(regs)
         return regs
     if kind == "chrom-order":
         return list(reversed(chroms))
@@ -537,11 +635,11 @@ def gen_case(rng, region_kind=None, big=False, special=None, shared=None):
         opts["samples"] = rng.sample(samples, rng.randint(1, len(samples)))
     if region_kind is None:
         region_kind = rng.choice(["none"] * 9 + ["chrom", "chrom", "single", "open", "sorted-far", "sorted-far",
-                                                 "sorted-near", "overlapping", "unsorted", "chrom-order", "edge", "edge"])
+                                                 "sorted-near", "overlapping", "unsorted", "chrom-order", "edge", "edge", "bridge", "bridge"])
+    case["opts"] = opts
     if region_kind != "none":
         opts["regions"] = gen_regions(rng, case, region_kind)
     case["region_kind"] = region_kind
-    case["opts"] = opts
     # haplotype permutation of one phase set of one used sample
     used = [s for s in (opts["samples"] or samples)]
     cands = sorted({(s, c["ps"]) for s in used for ch in chroms for c in case["calls"][s][ch]
